@@ -844,7 +844,7 @@ fn main() {
          set_enabled(true|false) of {{a,b,<server-default id>,missing}}, set_actions(2 variants) of {{a,<server-default \
          id>,missing}}; inserted rules always carry a payload different from the rule they replace; room/sender with typed \
          ids !a:x.. / @a:x.. and !a/b:x. Configurations (kinds/depth/initial ruleset): {}. Every configuration is \
-         explored twice and unique-state / transition counts compared. state = unique (ruleset, depth); transition = \
+         explored twice and unique-state / transition counts compared. state = unique (ruleset, depth), summed over the configurations; transition = \
          one real edit call; non-trivial = a transition whose result the reference defines (everything except a rule \
          positioned relative to itself)",
         if args.tier.is_thorough() { "spawn_dfs" } else { "spawn_bfs" },
